@@ -283,10 +283,15 @@ func (m *Muxer) WriteData(d *MuxerData) (int, error) {
 			}
 
 			// Only a packet that is written consumes a continuity counter value
+			cc := ctx.cc
 			pkt.Header.ContinuityCounter = uint8(ctx.cc.inc())
 
 			n, err = writePacket(m.bitsWriter, &pkt, m.packetSize)
 			if err != nil {
+				// A packet that was refused as a whole (it doesn't fit) gives its continuity counter value back
+				if n == 0 {
+					ctx.cc = cc
+				}
 				return bytesWritten, err
 			}
 
